@@ -7,13 +7,14 @@ with and render a non-empty message), OR-FAIL-SHAPE (validate_or_fail).
 from __future__ import annotations
 
 import ast
+import re
 from typing import Any, Dict, List, Optional, Set, Tuple
 
 from ..engine import Interp, kwargs_spread
 from ..interp import Event, Path
 from ..loader import AnalysisError, ClassInfo, FuncInfo, Program
 from ..model import Model
-from ..partial import escapes, kind_on_path
+from ..partial import RENDER_SAFE, escapes, kind_on_path
 from ..report import Run
 from ..values import (NIL, Const, ExcV, Inst, ListV, StrV, Sym, Term, V)
 from ..visits import configs_for, run_visit, validator_ctx
@@ -33,12 +34,14 @@ def check(run: Run, prog: Program, model: Model, tier: str) -> None:
         "actual_value has each kind the validator builds that error class with. validate_or_fail is checked for "
         "its shape. Objects whose own special methods raise are out of scope, as in the property."
         " Hashing (set/dict membership and stores) of a value not known to be hashable, int()/float() of a value of unknown kind and str.format on a template that embeds a runtime value are partial operations.")
+    run.explanation += ' RENDER-TOTAL: str()/repr()/f-string conversion of an error field that the validator fills from the validated value, with a kind that can hold an int of unbounded size, raises ValueError beyond sys.get_int_max_str_digits(); it must be handled. Lengths and loop indices are bounded. Format specs are partial operations.'
     run.rule_text = ("obligations: (visitor method, prop-set/shape) for TOTAL; (formatter method, value kind) for FORMAT-TOTAL; "
                      "clauses of validate_or_fail; non-trivial = at least one partial operation was judged on the paths")
     run.trusted += ["partial-operation table of DESIGN appendix A", "comparison / len / in / iteration are total on built-in kinds "
                     "and their plain subclasses", "re.search with a pattern that compiled at declaration does not raise"]
     unroll = 1 if tier == "quick" else 2
     err_kinds: Dict[str, Set[str]] = {}
+    prov: Dict[Tuple[str, str], Set[Tuple[str, Optional[str]]]] = {}
     npaths = 0
     for vis in VALIDATORS:
         for hook, f in model.visit_methods(vis).items():
@@ -77,6 +80,10 @@ def check(run: Run, prog: Program, model: Model, tier: str) -> None:
                             if len(args) >= 2:
                                 k = kind_on_path(args[1], p, e.nfacts) or "object"
                                 err_kinds.setdefault(e.data["cls"].name, set()).add(k)
+                            init = e.data["cls"].lookup("__init__")
+                            names = [a.arg for a in init.node.args.args[1:]] if init else []
+                            for fld, a in zip(names, args):
+                                prov.setdefault((e.data["cls"].name, fld), set()).add((a.key(), _render_kind(a, p, e.nfacts)))
                 if bad:
                     run.violated("TOTAL", construct, f.loc, "; ".join(sorted(set(bad)))[:400],
                                  witness=f"validate(<schema with {cfg.label}>, <hostile value of the guarded kind>) raises instead of returning a result")
@@ -86,12 +93,54 @@ def check(run: Run, prog: Program, model: Model, tier: str) -> None:
                     run.holds("TOTAL", construct, f.loc, f"{len(paths)} paths, {judged} partial operations judged total", nontrivial=judged > 0)
     run.analysed["validator_paths"] = npaths
     run.floor("TOTAL", 150)
-    _formatter(run, prog, model, err_kinds)
+    _formatter(run, prog, model, err_kinds, prov)
     _or_fail(run, prog, model)
 
 
-def _formatter(run: Run, prog: Program, model: Model, err_kinds: Dict[str, Set[str]]) -> None:
+_FROM_VALUE = re.compile(r"(?<![\w.])value\b")
+
+
+def _render_kind(a: V, p: Path, nfacts: int) -> Optional[str]:
+    """Kind of an error-constructor argument for the purpose of rendering it: a loop index over the value and an
+    attribute of a value of a render-safe kind (UUID.version) cannot be an int of unbounded size."""
+    k = kind_on_path(a, p, nfacts)
+
+    def bounded(x: Any) -> bool:
+        # index arithmetic: constants, loop indices and lengths combined by + - max min
+        if isinstance(x, Const):
+            return isinstance(x.value, int)
+        if isinstance(x, Sym):
+            return bool(x.origin) and x.origin[0] in ("index", "range")      # loop index over a real sequence / range
+        if isinstance(x, Term):
+            if x.op == "len":
+                return True
+            if x.op in ("bin", "max", "min", "unary"):
+                return all(bounded(y) for y in x.args if isinstance(y, V))
+        return False
+    if k == "int" and not isinstance(a, Const) and bounded(a):
+        return "index"
+    if isinstance(a, Term) and a.op == "attr" and a.args and isinstance(a.args[0], V) \
+            and kind_on_path(a.args[0], p, nfacts) in RENDER_SAFE:
+        return "index"
+    return k
+
+
+def _hostile_fields(prov: Dict[Tuple[str, str], Set[Tuple[str, Optional[str]]]], cls: str) -> Dict[str, Set[Optional[str]]]:
+    """Fields of an error class that the validator fills from the validated value (field -> kinds seen)."""
+    out: Dict[str, Set[Optional[str]]] = {}
+    for (c, fld), seen in prov.items():
+        if c != cls:
+            continue
+        ks = {k for key, k in seen if _FROM_VALUE.search(key)}
+        if ks and not ks <= RENDER_SAFE:
+            out[fld] = ks
+    return out
+
+
+def _formatter(run: Run, prog: Program, model: Model, err_kinds: Dict[str, Set[str]],
+               prov: Optional[Dict[Tuple[str, str], Set[Tuple[str, Optional[str]]]]] = None) -> None:
     fm = prog.cls("validation._formatter.Formatter")
+    prov = prov or {}
     errs = {c.name: c for c in prog.subclasses(prog.cls("validation.errors.ValidationError"))}
     for mname, m in sorted(fm.methods.items()):
         if not mname.startswith("format_"):
@@ -105,8 +154,12 @@ def _formatter(run: Run, prog: Program, model: Model, err_kinds: Dict[str, Set[s
         kinds = sorted(err_kinds.get(ann, set())) or ["object"]
         init = ecls.lookup("__init__")
         fields = [a.arg for a in init.node.args.args[1:]] if init else []
+        hostile = _hostile_fields(prov, ann)
+        render_bad: Dict[str, Set[str]] = {}
+        render_seen: Set[str] = set()
         for k in kinds:
             it = Interp(prog, model, unroll=1)
+            it.int_str_limit = True       # type: ignore[attr-defined]
 
             def run1(i: Interp) -> V:
                 fmt = i._construct(fm, [], {}, None)
@@ -118,6 +171,8 @@ def _formatter(run: Run, prog: Program, model: Model, err_kinds: Dict[str, Set[s
                         attrs[fld] = Sym("error.actual_value", None if k == "object" else k, ("attr", "actual_value"))
                     elif fld in ("length", "min_length", "max_length", "index", "actual_version", "expected_version"):
                         attrs[fld] = Sym(f"error.{fld}", "int", ("attr", fld))
+                    elif fld in hostile and len(hostile[fld]) == 1:
+                        attrs[fld] = Sym(f"error.{fld}", next(iter(hostile[fld])), ("attr", fld))
                     else:
                         attrs[fld] = Sym(f"error.{fld}", None, ("attr", fld))
                 err = Inst(ecls, attrs)
@@ -129,6 +184,15 @@ def _formatter(run: Run, prog: Program, model: Model, err_kinds: Dict[str, Set[s
                 if p.outcome == "raise":
                     bad.append(f"raises {p.value.key() if p.value else '?'}")
                 for e in p.events:
+                    if e.kind == "partial" and e.data.get("op") == "render":
+                        # RENDER-TOTAL: only what the validator copied from the validated value is hostile
+                        opk = e.data["operands"][0].key()
+                        for fld in hostile:
+                            if f"error.{fld}" in opk:
+                                render_seen.add(fld)
+                                for x, why in escapes(p, e):
+                                    render_bad.setdefault(fld, set()).add(f"{why} @ {e.loc(prog)}")
+                        continue
                     if e.kind == "partial":
                         for x, why in escapes(p, e):
                             if why != "arity":
@@ -144,7 +208,16 @@ def _formatter(run: Run, prog: Program, model: Model, err_kinds: Dict[str, Set[s
                              witness=f"error.format(Formatter()) raises / is empty for a {ann} built on a {k} value")
             else:
                 run.holds("FORMAT-TOTAL", construct, m.loc, f"{len(ps)} paths total; message has literal text", nontrivial=True)
+        for fld in sorted(render_seen):
+            c = f"Formatter.{mname}: rendering error.{fld}"
+            if fld in render_bad:
+                run.violated("RENDER-TOTAL", c, m.loc, "; ".join(sorted(render_bad[fld]))[:400],
+                             witness=f"format_result(validate(S, v)) raises ValueError when the {ann} carries 10**5000 "
+                                     f"(or a container holding it) as {fld}: e.g. validate(schema.str, 10**5000)")
+            else:
+                run.holds("RENDER-TOTAL", c, m.loc, "kind cannot hold an unbounded int, or ValueError is handled", nontrivial=True)
     run.floor("FORMAT-TOTAL", 12)
+    run.floor("RENDER-TOTAL", 8)
 
 
 def _no_errors_fact(t: Any, b: bool) -> bool:
@@ -228,7 +301,18 @@ def _or_fail(run: Run, prog: Program, model: Model) -> None:
 
 V_ = "d42/validation/_validator.py"
 F_ = "d42/validation/_formatter.py"
+FMT_ = "d42/validation/_formatter.py"
 MUTANTS = [
+    {"name": "type error renders the offending value with !r again (fix 7fcb16c reverted at one site)", "rule": "RENDER-TOTAL",
+     "edits": [(FMT_, "        return (f\"Value {self._format_value(error.actual_value)}{formatted_path} \"", "        return (f\"Value {error.actual_value!r}{formatted_path} \"")]},
+    {"name": "extra key rendered through str()", "rule": "RENDER-TOTAL",
+     "edits": [(FMT_, "contains extra key {self._format_value(error.extra_key)}\"", "contains extra key \" + str(error.extra_key)")]},
+    {"name": "_format_value catches TypeError instead of ValueError", "rule": "RENDER-TOTAL",
+     "edits": [(FMT_, "        try:\n            return repr(value)\n        except ValueError:", "        try:\n            return repr(value)\n        except TypeError:")]},
+    {"name": "neutral: alphabet error (str value) rendered through _format_value too", "expect": "SILENT",
+     "edits": [(FMT_, "must contain only {error.alphabet!r}, but {error.actual_value!r} given", "must contain only {error.alphabet!r}, but {self._format_value(error.actual_value)} given")]},
+    {"name": "neutral: _format_value catches Exception", "expect": "SILENT",
+     "edits": [(FMT_, "        try:\n            return repr(value)\n        except ValueError:", "        try:\n            return repr(value)\n        except Exception:")]},
     {"name": "typed-list elements that passed are remembered in a set keyed by (type, value)", "rule": "TOTAL",
      "edits": [(V_, "            for index, elem in enumerate(value):\n                nested_path = deepcopy(path)[index]\n                res = type_schema.__accept__(self, value=elem, path=nested_path, **kwargs)\n                result.add_errors(res.get_errors())",
                 "            passed: Any = set()\n            for index, elem in enumerate(value):\n                if (type(elem), elem) in passed:\n                    continue\n                nested_path = deepcopy(path)[index]\n                res = type_schema.__accept__(self, value=elem, path=nested_path, **kwargs)\n                result.add_errors(res.get_errors())\n                if not res.has_errors():\n                    passed.add((type(elem), elem))")]},
